@@ -21,6 +21,11 @@ def call_sequences(maxlen):
         if line.startswith('"[\\"SEQ'):
             seqs.append(json.loads(json.loads(line))[1])
     seqs.sort(key=lambda s: json.dumps(s, sort_keys=True))
+    # vacuity guard: every kind of call of the menu occurs (a precedence slip in OptCalls.tla once disabled ClearLog without TLC noticing)
+    kinds = {c["ev"] for s in seqs for c in s}
+    want = {"Step", "Solve", "Reload", "Tag", "ClearLog", "Enable", "Disable", "Retarget"} if maxlen >= 2 else set()
+    if want - kinds:
+        raise Machinery(f"OptCalls.tla no longer enumerates the calls {sorted(want - kinds)}")
     return seqs, r
 
 
@@ -129,6 +134,16 @@ def run(prop, level, rule):
         withsolve = [s for s in seqs if any(c["ev"] in ("Solve", "Step") for c in s)]
         for s in rnd.sample(withsolve, 2 if q else 6):
             jobs.append((p, s, rnd.choice(["once", "always"])))
+    # 4-call sequences in which flags are changed around a log operation before a solver call (a row logged with a knob / target inactive that
+    # is active again when a solve fails or a step takes its best row): all of them, each on a few problems
+    seqs4 = seqs if not q else call_sequences(4)[0]
+    def _rich4(s_):
+        return len(s_) == 4 and s_[0]["ev"] == "Disable" and s_[1]["ev"] in ("ClearLog", "Reload", "Tag") and s_[2]["ev"] == "Enable" and s_[3]["ev"] in ("Solve", "Step")
+    r4 = [s_ for s_ in seqs4 if _rich4(s_)]
+    hard = [p_ for p_ in problems if p_["family"] == "inconsistent"] or problems          # solves that fail: the restore clause of C09 lives there
+    for s_ in r4:
+        for p_ in rnd.sample(problems, 2 if q else 6) + rnd.sample(hard, min(len(hard), 3 if q else 8)):
+            jobs.append((p_, s_, None))
     fails, stats, samples, extra = par.run_workers("harness.opt_driver", {"jobs": jobs, "scratch": scratch, "seed": seed(), "max_faults": 4 if q else 12},
                                                     14, collect=("traces", "readables"))
     traces, readables = [], {}
@@ -175,7 +190,7 @@ def run(prop, level, rule):
                         "probes_reached": reached if reached is not None else "thorough tier / ./check selftest"},
           protocol_traces={"module": "OptProtoTrace.tla", "traces": len(traces), "rejected_by_property": dict(nrej), "states": pstates}, traces_validated_against_impl=stats["traces"],
           distinct_nontrivial=stats["failing_calls"] + stats["twin_checked"], call_sequences_enumerated=len(seqs), problems=nprob,
-          driver_stats=dict(stats), violated_clause_instances=dict(nclauses), exhaustive=False)
+          driver_stats=dict(stats), flag_log_solver_sequences_of_4=len(r4), violated_clause_instances=dict(nclauses), exhaustive=False)
     v.assume("the numeric content of every measurement (penalties, tolerances, limits, step sizes) is computed by the harness oracle from the user function; TLC decides "
              "what the optimizer did with them (order-preserving / injective integer abstractions: interned points, penalty ranks, ppm ratios, ulp distances)",
              "merit functions are deterministic and come from generated families (linear consistent / inconsistent / rank-deficient, quadratic, trigonometric; 1-4 knobs, 1-5 targets)",
